@@ -122,6 +122,15 @@ def run(P: Program, rep: Report):
                             and isinstance(it.get_attr(b0, "error"), AObj) and it.get_attr(b0, "error").cls.name == "PartialMiddlewareException"
                         if not ok:
                             probs.append(("R3", "entry-error-block", f"converter failure on an entry value yields {b0!r}, expected a MiddlewareErrorBlock holding the entry and a PartialMiddlewareException"))
+                        else:
+                            tv = it.get_attr(it.iterate(it.get_attr(e, "fields"))[0], "value")
+                            if "T" in fail_on and tv != "T":
+                                probs.append(("R3", "entry-original-kept", f"the entry held by the error block has title {tv!r}, the original text was 'T'"))
+                            parts = {k: it.get_attr(np, k) for k in ("first", "last", "jr")}
+                            for k, orig in (("first", ["F1", "F2"]), ("last", ["L1"]), ("jr", ["J1"])):
+                                for o_, g_ in zip(orig, parts[k].items if isinstance(parts[k], AList) else []):
+                                    if o_ in fail_on and g_ != o_:
+                                        probs.append(("R3", "entry-original-kept", f"name part {o_!r} whose conversion failed becomes {g_!r}"))
                     else:
                         if b0 is not e:
                             probs.append(("R1", "entry-identity", f"the entry is returned as {b0!r}"))
@@ -146,6 +155,8 @@ def run(P: Program, rep: Report):
                         ok = isinstance(b1, AObj) and b1.cls.name == "MiddlewareErrorBlock" and it.get_attr(b1, "ignore_error_block") is s
                         if not ok:
                             probs.append(("R3", "string-error-block", f"converter failure on an @string value yields {b1!r} with value {it.get_attr(s, 'value')!r}, expected a MiddlewareErrorBlock holding the string"))
+                        elif it.get_attr(s, "value") != "SV":
+                            probs.append(("R3", "string-original-kept", f"the @string held by the error block has value {it.get_attr(s, 'value')!r}, the original text was 'SV'"))
                     else:
                         sv = it.get_attr(s, "value")
                         if b1 is not s or sv != Conv("SV"):
@@ -160,6 +171,43 @@ def run(P: Program, rep: Report):
                     rep.fail(f"C18.{r}", f"{label}:{k}", cls.loc, f"{msg} ({cfg})")
                 if not probs:
                     rep.ok("C18.R1" if not fail_on else "C18.R3", f"{cfg}", cls.loc)
+
+    rep.rule("C18.R5", "every application converts: applying the middleware a second time to the blocks it produced (same or fresh "
+                       "instance, after the other direction or not) converts the values again - decoding what was encoded after an earlier "
+                       "decode must not be skipped")
+    for label, cls in classes.items():
+        other = classes["decode" if label == "encode" else "encode"]
+        for plan in ("same-instance-twice", "fresh-instance-twice", "this-other-this"):
+            hooks = Hooks([])
+
+            def twice(ctx):
+                it = driver_interp(P, ctx, "middlewares.latex_encoding", {}, hooks)
+                lib, e, s, np = build(it, P)
+                try:
+                    mw = it.construct(cls, [], {})
+                    seq = {"same-instance-twice": [mw, mw], "fresh-instance-twice": [mw, it.construct(cls, [], {})],
+                           "this-other-this": [mw, it.construct(other, [], {}), it.construct(cls, [], {})]}[plan]
+                    out = lib
+                    for m_ in seq:
+                        out = call(it, m_, "transform", out)
+                except Raised as r:
+                    return ("raise", r.cls_name())
+                except (Unsupported, LoopBound) as u:
+                    raise AnalysisError(f"C18.R5: analyser cannot follow {cls.name}: {u}")
+                bl = it.iterate(it.get_attr(out, "blocks"))
+                if len(bl) != 5 or not all(isinstance(b, AObj) for b in bl[:2]) or bl[0].cls.name != "Entry" or bl[1].cls.name != "String":
+                    return ("blocks", [repr(b) for b in bl])
+                tv = it.get_attr(it.iterate(it.get_attr(bl[0], "fields"))[0], "value")
+                return ("values", tv, it.get_attr(bl[1], "value"), len(seq))
+            for ctx, v in explore(twice, 20):
+                if v[0] != "values":
+                    rep.fail("C18.R5", f"{label}:{plan}", cls.loc, f"{cls.name} applied {plan}: {v}")
+                    continue
+                want_t, want_s = "T", "SV"
+                for _ in range(v[3]):
+                    want_t, want_s = Conv(want_t), Conv(want_s)
+                rep.check(v[1] == want_t and v[2] == want_s, "C18.R5", f"{label}:{plan}", cls.loc,
+                          f"{cls.name} applied {plan}: title becomes {v[1]!r}, @string value {v[2]!r}; every application must convert ({want_t!r})")
 
     rep.rule("C18.R4", "options: a custom encoder/decoder is used as given and cannot be combined with the other options "
                        "(ValueError); keep_math / enclose_urls select the conversion rules; keep_braced_groups / keep_math_mode "
@@ -203,3 +251,8 @@ def run(P: Program, rep: Report):
                 dec = [c_ for c_ in h.ext_calls if "LatexNodes2Text" in c_[0]]
                 ok = k == "ok" and len(dec) == 1 and dec[0][2].get("keep_braced_groups") is False and dec[0][2].get("math_mode") == "verbatim"
                 rep.check(ok, "C18.R4", "decode:options:defaults", cls.loc, f"default decoder constructed with {dec[0][2] if dec else None}")
+
+    rep.rule("C18.R9", "no unsafe memoisation in the modules this property rests on: a function decorated with lru_cache / cache / "
+                      "cached_property neither takes nor returns a mutable object (else later calls see stale or shared results)")
+    from . import common as _common
+    _common.no_unsafe_memoisation(P, rep, "C18.R9", ['middlewares.latex_encoding'])
